@@ -90,9 +90,16 @@ def _limb_splits(F):
         for i in b['insts']:
             if i['op'] != 'store':
                 continue
-            base, off = F.addr_of(i['ops'][1])
-            if off is None:
-                continue
+            base, off = i['ops'][1], 0
+            while base['k'] == 'i':
+                g = F.insts[base['v']]
+                if g['op'] == 'bitcast':
+                    base = g['ops'][0]
+                elif g['op'] == 'getelementptr' and g.get('off') is not None and not g.get('var'):
+                    off += g['off']
+                    base = g['ops'][0]
+                else:
+                    break
             v = i['ops'][0]
             if v['k'] not in ('i', 'a'):
                 continue
